@@ -380,7 +380,8 @@ def random_op(rng, impl, ti, *, labels, malformed=0.1, typed=False, ops=None, di
         if not impl.trees[st].children:
             return random_op(rng, impl, ti, labels=labels, malformed=malformed, typed=typed, ops=["add"])
         p = rng.choice(allp)
-        return {"op": "w.addtree", "t": ti, "p": p, "st": st, "before": rng.choice(befores(rng, impl, ti, p, malformed=mal)[:8]),
+        bs_ = befores(rng, impl, ti, p, malformed=mal)
+        return {"op": "w.addtree", "t": ti, "p": p, "st": st, "before": rng.choice(bs_ if mal else bs_[:8]),
                 "deep": rng.choice([None, None, True, False])}
     if k == "move":
         n = rng.choice(paths)
